@@ -105,7 +105,8 @@ def run_case(case, ctx):
     # keep a drifting tone inside its coarse channel (|offset| < 0.48) over the recording
     dur = total_T * tbin
     end_beta = t['beta'] + sign * drift * dur / chan_bw_abs
-    if abs(end_beta) > 0.48:
+    # ... and at least 1.6 fine bins inside the channel edge, where the fine spectrum wraps around
+    if max(abs(end_beta), abs(t['beta'])) > 0.5 - 1.6 / L:
         drift = 0.0
     chirp = drift != 0.0
     obs.cls('asc' if c['ascending'] else 'desc', 'start_chan=0' if c['start_chan'] == 0 else 'start_chan>0',
